@@ -742,7 +742,10 @@ PROPERTIES = {
                     {"stream": "containers", "profile": "queue-exh", "quick": 20000, "thorough": 283000, "predicate": no_panic, "project": lambda obs, case: obs[:1], "nontrivial": lambda obs, case: True},
                     {"stream": "tokens", "profile": "layout", "quick": 3000, "thorough": 200000, "project": lambda obs, case: obs[:2], "nontrivial": lambda obs, case: "I" in obs[0]},
                     {"stream": "tokens", "profile": "bytes", "quick": 4000, "thorough": 250000, "nontrivial": lambda obs, case: True},
-                    {"stream": "nexttoken", "profile": "layout", "quick": 3000, "thorough": 200000, "predicate": no_panic, "nontrivial": lambda obs, case: " I" in obs[0]}],
+                    {"stream": "nexttoken", "profile": "layout", "quick": 3000, "thorough": 200000, "predicate": no_panic, "nontrivial": lambda obs, case: " I" in obs[0]},
+                    # the token streams of a real load cannot be read off: scripts split over several readers must load exactly when
+                    # a fresh lexer finds no syntax error in each of them (one balanced stream, one EOF, per reader)
+                    {"stream": "load", "profile": "mixed", "quick": 600, "thorough": 20000, "special": special_load}],
         "assumptions": ["the raw queue state (capacity, first, next) is informational only: the verdict uses results and sizes, so another initial capacity does not alarm"],
         "rule": "containers: random and phase-structured operation sequences on the real Queue/Stack through the hook; queue-exh enumerates all words over {enq, deq, peek} up to length 11 plus 16k phase sequences forcing three growths from wrapped buffers (every (cap, first, next) for cap 8, 16, 32 is visited); tokens: INDENT/DEDENT/EOF projection of the real lexer on generated scripts in random (also ragged, noisy, mixed tab/space) layouts and on arbitrary bytes (balance predicate); nexttoken: the complete delivered token stream (ordinary tokens in place, synthetic tokens with their widths) of the real lexer against the NextToken plumbing model pulled over the pending queue and the indent stack",
         "leanchecker": ["Ysgo.Props.C20", "Ysgo.Props.C20NextToken"],
